@@ -51,6 +51,10 @@ type PipeCase struct {
 	CloneSwaps [][2]int `json:"cloneswaps,omitempty"`
 	// ShareObjects (producer feed): records with the same text are the same *tree.Tree object
 	ShareObjects bool `json:"shareobjects,omitempty"`
+	// StaleIndex: reference and (producer feed) compared trees carry indexes computed before their tips were renamed
+	StaleIndex bool `json:"staleindex,omitempty"`
+	// ZeroIds (producer feed, fbp / tbe): every record carries id 0 (two files forwarded on one channel, ids never set)
+	ZeroIds bool `json:"zeroids,omitempty"`
 	// PriorRun (fbp, tbe): the other support has been computed on the same reference object first (a history of two calls)
 	PriorRun bool      `json:"priorrun,omitempty"`
 	Recs2    []Rec     `json:"recs2,omitempty"` // the same collection in another order and presentation (metamorphic second run)
@@ -92,6 +96,49 @@ func tipSupports(t *tree.Tree) int {
 		}
 	}
 	return n
+}
+
+// staleIndexed: the tree has been indexed under other tip names (ranks reversed), then its tips were given their names and only
+// the tip index was refreshed — what Rename leaves behind. Every function that starts by re-indexing its input heals this.
+func staleIndexed(t *tree.Tree) *tree.Tree {
+	tips := t.Tips()
+	names := make([]string, len(tips))
+	for i, n := range tips {
+		names[i] = n.Name()
+	}
+	sorted := append([]string(nil), names...)
+	sort.Strings(sorted)
+	rank := map[string]int{}
+	for i, s := range sorted {
+		rank[s] = i
+	}
+	if len(rank) != len(names) {
+		return t // duplicate names: cannot be indexed at all
+	}
+	for i, n := range tips {
+		n.SetName(fmt.Sprintf("zz%06d", len(names)-1-rank[names[i]]))
+	}
+	if err := t.ReinitIndexes(); err != nil {
+		panic("harness: " + err.Error())
+	}
+	for i, n := range tips {
+		n.SetName(names[i])
+	}
+	if err := t.UpdateTipIndex(); err != nil {
+		panic("harness: " + err.Error())
+	}
+	return t
+}
+
+// supporter: the progress tracker given to FBP / TBE; for some cases one that another computation has already used.
+func (pc *PipeCase) supporter() (*support.Supporter, int) {
+	sup := support.NewSupporter()
+	if pc.PriorRun && pc.BufSz == 16 {
+		for i := 0; i < 3; i++ {
+			sup.IncrementProgress()
+		}
+	}
+	return sup, sup.Progress()
 }
 
 func mustParse(s string) *tree.Tree {
@@ -186,10 +233,16 @@ func (pc *PipeCase) feed() <-chan tree.Trees {
 				rec = tree.Trees{Tree: t, Id: i}
 			} else {
 				t, err := newick.NewParser(strings.NewReader(r.Text)).Parse()
+				if err == nil && pc.StaleIndex {
+					t = staleIndexed(t)
+				}
 				rec = tree.Trees{Tree: t, Id: i, Err: err}
 				if err == nil {
 					shared[r.Text] = t
 				}
+			}
+			if pc.ZeroIds {
+				rec.Id = 0
 			}
 			verifhook.Yield("harness.producer", "send")
 			ch <- rec
@@ -211,7 +264,13 @@ func runPipeT(t *testing.T, pc *PipeCase, cpus int, sc SchedCase, maxSteps, tota
 	pr := &PipeResult{Recs: map[int]CmpRec{}}
 	cfg := sc.ConfigT(maxSteps, total)
 	pr.Sched = sched.Run(t, cfg, func() {
-		ref := mustParse(pc.Ref)
+		var ref *tree.Tree
+		if pc.Algo != "consensus" {
+			ref = mustParse(pc.Ref)
+			if pc.StaleIndex {
+				ref = staleIndexed(ref)
+			}
+		}
 		var in <-chan tree.Trees
 		if len(pc.CloneSwaps) > 0 {
 			in = pc.cloneFeed(ref, pr)
@@ -255,7 +314,6 @@ func runPipeT(t *testing.T, pc *PipeCase, cpus int, sc SchedCase, maxSteps, tota
 				pr.Recs[s.Id] = r
 			}
 		case "fbp":
-			ref := mustParse(pc.Ref)
 			if pc.PriorRun {
 				if err := ref.ReinitIndexes(); err != nil {
 					panic("harness: " + err.Error())
@@ -266,13 +324,12 @@ func runPipeT(t *testing.T, pc *PipeCase, cpus int, sc SchedCase, maxSteps, tota
 					panic("harness: prior TBE run fails: " + err.Error())
 				}
 			}
-			sup := support.NewSupporter()
+			sup, before := pc.supporter()
 			pr.Err = support.FBP(ref, in, cpus, sup)
-			pr.Progress = sup.Progress()
+			pr.Progress = sup.Progress() - before
 			pr.RefOut = ref.Newick()
 			pr.TipSup = tipSupports(ref)
 		case "tbe":
-			ref := mustParse(pc.Ref)
 			if err := ref.ReinitIndexes(); err != nil {
 				pr.Err = err
 				break
@@ -292,10 +349,10 @@ func runPipeT(t *testing.T, pc *PipeCase, cpus int, sc SchedCase, maxSteps, tota
 					defer logf.Close()
 				}
 			}
-			sup := support.NewSupporter()
+			sup, before := pc.supporter()
 			raw, err := support.TBE(ref, in, cpus, pc.RawTree, pc.AvgTaxa, pc.PerBranch, 0.3, logf, sup)
 			pr.Err = err
-			pr.Progress = sup.Progress()
+			pr.Progress = sup.Progress() - before
 			pr.RefOut = ref.Newick()
 			pr.TipSup = tipSupports(ref)
 			if raw != nil {
@@ -654,6 +711,9 @@ func genPipe(rt *rapid.T, tier string, op pipeGenOpts) *PipeCase {
 			if i := strings.Index(text, ")"); i >= 0 {
 				text = text[:i] + text[i+1:]
 			}
+			if rapid.IntRange(0, 5).Draw(rt, "emptystmt") == 0 {
+				text = ";" // a statement made of its terminator alone
+			}
 		case "errrec":
 			text = ""
 		}
@@ -662,6 +722,10 @@ func genPipe(rt *rapid.T, tier string, op pipeGenOpts) *PipeCase {
 	}
 	if _, fk := pc.hasFault(); fk == "" && len(pc.Recs) > 0 && (pc.Algo == "fbp" || pc.Algo == "tbe") {
 		pc.PriorRun = rapid.IntRange(0, 4).Draw(rt, "priorrun") == 0
+	}
+	pc.StaleIndex = rapid.IntRange(0, 5).Draw(rt, "staleindex") == 0
+	if pc.Feed == "chan" && (pc.Algo == "fbp" || pc.Algo == "tbe") {
+		pc.ZeroIds = rapid.IntRange(0, 5).Draw(rt, "zeroids") == 0
 	}
 	pc.Sched = genSched(rt)
 	return pc
